@@ -14,8 +14,11 @@
      the TOC), footer fields, index segments -- alone or combined, on a closed or a crash-interrupted file,
      except that pointer and footer may not BOTH be lost (then nothing locates the TOC: boundary below).
 
-   The property as stated is REFUTED in two classes (known findings F-C21-1, F-C21-2) and proved outside
-   them for every listed damage, every pending-record list and all 32 option combinations. *)
+   The property as stated is REFUTED in one remaining class (known finding F-C21-2 toc-checksum-field) and
+   proved outside it for every listed damage, every pending-record list and all 32 option combinations.
+   F-C21-1 (stale-pointer-after-replay) was repaired in /repo by f76b325 (HealHeaderPointer only moves the
+   pointer forward); the model follows the repaired action, the action before the fix is kept as
+   heal_ptr_unfixed / doctor_unfixed for the historical lemma. *)
 From MV Require Import Base.Prelude Model.Doctor Proofs.DoctorProofs Proofs.DoctorRun.
 Local Open Scope N_scope.
 
@@ -82,16 +85,38 @@ Definition base_pending : afile :=
   mkFile 9000 9000 9500 7 7 7 true true true None (WPending [PIns 4000; PDel 0]) 12 IxOk true IxOk 2
          [(0, 1000); (2, 0); (0, 3000)].
 
-(* F-C21-1 stale-pointer-after-replay: header pointer damaged on a crash-interrupted file whose pending
-   records insert a frame.  The open inside doctor replays (the TOC moves), HealHeaderPointer then writes
-   the planned -- now stale -- offset into the header and Finalize writes the TOC there, on top of the
-   payload the replay just stored: the acknowledged frame is altered, verification fails, status Failed. *)
-Theorem C21_refuted_stale_pointer : exists d o f,
+(* F-C21-1 stale-pointer-after-replay (repaired by f76b325): header pointer damaged on a crash-interrupted
+   file whose pending records insert a frame.  Regression on the current model: the witness of the old
+   refutation now heals -- rows = committed + pending applied, Healed, verification passed, second run Clean. *)
+Example C21_regression_stale_pointer_heals :
+  let f := damage_file (DPtr 9001) base_pending in
+  let r := doctor default_opts f in
+  sound base_pending /\ stale_ptr_class f = true /\
+  f_rows (fst r) = view base_pending /\ preserves (view base_pending) (f_rows (fst r)) = true /\
+  r_status (snd r) = 1 /\ r_verified (snd r) = Some true /\ opens (fst r) = true /\
+  r_status (snd (doctor default_opts (fst r))) = 0.
+Proof. vm_compute. repeat split; try reflexivity; exact I. Qed.
+
+(* historical: with the action as it was before the fix (`!=` instead of `<`) the open inside doctor replays
+   (the TOC moves), HealHeaderPointer writes the planned -- now stale -- offset into the header and Finalize
+   writes the TOC there, on top of the payload the replay just stored: the acknowledged frame is altered,
+   verification fails, status Failed. *)
+Theorem C21_unfixed_stale_pointer_refuted : exists d o f,
   sound f /\ o_dry o = false /\
-  preserves (view f) (f_rows (fst (doctor o (damage_file d f)))) = false /\
-  r_status (snd (doctor o (damage_file d f))) = 3.
+  preserves (view f) (f_rows (fst (doctor_unfixed o (damage_file d f)))) = false /\
+  r_status (snd (doctor_unfixed o (damage_file d f))) = 3.
 Proof. exists (DPtr 9001), default_opts, base_pending. vm_compute. repeat split; try reflexivity; exact I. Qed.
-Print Assumptions C21_refuted_stale_pointer.
+Print Assumptions C21_unfixed_stale_pointer_refuted.
+
+(* the branch the repaired action still has (target ahead of the handle's pointer: write it) is never taken on
+   a listed file: the planned target is the TOC offset the probe saw, the handle's pointer after the open is
+   that offset, or one further when the replay inserted a frame. *)
+Theorem C21_heal_pointer_target_never_ahead : forall o f m0 extra t,
+  wf f -> known_toc_cksum f = false ->
+  open_for_doctor (compute o f) f = inl (m0, extra) -> pl_heal_ptr (compute o f) = Some t ->
+  (t <= f_ptr m0)%N /\ heal_ptr m0 (Some t) = m0.
+Proof. exact heal_ptr_target_never_ahead. Qed.
+Print Assumptions C21_heal_pointer_target_never_ahead.
 
 (* F-C21-2 toc-checksum-field: the checksum stored inside the TOC damaged, nothing pending.  The TOC is
    recovered from the header hint, but open re-verifies the stored checksum after the (empty) replay and
@@ -104,9 +129,9 @@ Theorem C21_refuted_toc_checksum : exists d o f,
 Proof. exists (DTocCk 8), default_opts, base_closed. vm_compute. repeat split; try reflexivity; exact I. Qed.
 Print Assumptions C21_refuted_toc_checksum.
 
-(* the two classes are exactly what the outside_known theorems exclude *)
+(* the remaining class is exactly what the outside_known theorems exclude *)
 Example C21_known_classes :
-  known_class default_opts (damage_file (DPtr 9001) base_pending) = true /\
+  known_class default_opts (damage_file (DPtr 9001) base_pending) = false /\
   known_class default_opts (damage_file (DTocCk 8) base_closed) = true /\
   known_class default_opts (damage_file (DTocCk 8) base_pending) = false /\
   known_class default_opts (damage_file (DPtr 9001) base_closed) = false /\
